@@ -258,7 +258,7 @@ fn main() {
     let fin_grid = [-7.25, -1.5, -1.5, 0.0, 0.0, 1.0, 2.0, 2.0, 3.5, 1e6];
     let offsets = [0.0, 0.1, 1.0, 2.5];
     let bases = [0.1, 0.5, 0.9, f64::EPSILON];
-    let seeds_per = if a.thorough { 20 } else { 4 };
+    let seeds_per = if a.thorough { 40 } else { 20 };
     let pops_per_size = if a.thorough { 12 } else { 5 };
 
     // 1. every operator on populations of size 0..8, counts 0..size+1, several seeds
